@@ -147,7 +147,7 @@ def factorial_spec(levels, reps, seed=0, catkinds=None, numerics=("x", "z", "w")
 @st.composite
 def random_frame(draw, cat_vars=("f", "g", "h"), num_vars=("x", "z"), int_vars=("k",), min_rows=4, max_rows=40,
                  max_levels=4, with_index=True, extra_unused=True, pos_vars=(), num_styles=("general", "general", "ties", "offset", "smallint"),
-                 min_levels=2):
+                 min_levels=2, intcat_vars=()):
     """Arbitrary frame: unequal level counts, every declared level of a variable occurs at least once,
     str / Categorical / ordered Categorical columns, optional exotic index, optional unused columns."""
     n = draw(st.integers(max(min_rows, max_levels + 1), max_rows))
@@ -170,6 +170,13 @@ def random_frame(draw, cat_vars=("f", "g", "h"), num_vars=("x", "z"), int_vars=(
             cols.append({"name": name, "kind": "cat", "values": vals, "categories": lv_present[::-1] if seed % 2 else lv_present, "ordered": False})
         else:
             cols.append({"name": name, "kind": "cat", "values": vals, "categories": lv_present, "ordered": True})
+    for name in intcat_vars:  # pandas Categorical whose categories are integers (a plain categorical variable with non-string levels)
+        nl = draw(st.integers(2, max_levels))
+        codes = draw(st.lists(st.integers(0, nl - 1), min_size=n, max_size=n))
+        for i in range(nl):
+            codes[spots[(i + 2) % n]] = i
+        lv = [int_level(i) for i in range(nl)]
+        cols.append({"name": name, "kind": "cat", "values": [lv[c] for c in codes], "categories": sorted(lv) if seed % 2 else lv, "ordered": bool(seed % 3 == 0)})
     for name in int_vars:
         nl = draw(st.integers(2, max_levels))
         codes = draw(st.lists(st.integers(0, nl - 1), min_size=n, max_size=n))
